@@ -85,9 +85,12 @@ type callRec struct {
 	sizes     []int
 	cutInAttr bool
 	sent      bool
-	sentStart int  // stream offset of the reply's first byte
-	sentEnd   int  // stream offset just after the reply
-	armed     bool // the caller's timeout has been observed; the held reply may be released
+	sentStart int    // stream offset of the reply's first byte
+	sentEnd   int    // stream offset just after the reply
+	armed     bool   // the caller's timeout has been observed; the held reply may be released
+	headSent  bool   // straddle: the head of the framed reply is on the wire
+	framed    []byte // straddle: the framed reply
+	headLen   int
 	outcome   string
 }
 
@@ -101,6 +104,7 @@ type harness struct {
 	s            Session
 	srv          *ncsim.Server
 	cur          int // call in progress, -1 between calls
+	maxWrites    int // transport writes per call: 2 (1.0) or 3 (1.1)
 	writesInCall int
 	recs         []callRec
 	lastID       int
@@ -126,7 +130,51 @@ func (d *dev) Input(c *devsim.Conn, b []byte) {
 			d.h.send(c, d.h.cur) // no-op until the request has been seen
 		}
 		d.h.fire(c, fmt.Sprintf("next-write-%d", d.h.writesInCall))
+		if d.h.s.Calls[d.h.cur].Plan == "straddle" && d.h.writesInCall >= d.h.maxWrites {
+			d.h.sendHead(c, d.h.cur)
+		}
 	}
+}
+
+// sendHead puts the first part of a straddling reply on the wire (after the call's last write, so
+// that no echo can fall into the reply); sendTail follows from a harness goroutine.
+func (h *harness) sendHead(c *devsim.Conn, k int) {
+	rc := &h.recs[k]
+	if rc.headSent || rc.payload == nil {
+		return
+	}
+	if h.s.Version == "1.1" {
+		rc.framed = ncwire.EncodeChunked(rc.payload, rc.sizes)
+	} else {
+		rc.framed = append(ncwire.EncodeEOM(rc.payload), '\n')
+	}
+	rc.headLen = len(rc.framed) * h.s.Calls[k].HeadPct / 100
+	if rc.headLen < 1 {
+		rc.headLen = 1
+	}
+	if rc.headLen >= len(rc.framed) {
+		rc.headLen = len(rc.framed) - 1
+	}
+	if !h.s.NoEchoMark {
+		c.Mark()
+	}
+	rc.sentStart = c.Generated()
+	c.Emit(rc.framed[:rc.headLen])
+	rc.headSent = true
+}
+
+func (h *harness) sendTail(c *devsim.Conn, k int) bool {
+	rc := &h.recs[k]
+	if !rc.headSent {
+		return false
+	}
+	if !rc.sent {
+		c.Emit(rc.framed[rc.headLen:])
+		c.Mark()
+		rc.sentEnd = c.Generated()
+		rc.sent = true
+	}
+	return true
 }
 
 func (h *harness) send(c *devsim.Conn, k int) {
@@ -301,7 +349,7 @@ func RunSession(s Session) mon.Result {
 		}
 	}
 	srv := &ncsim.Server{HelloBytes: ncsim.Hello(caps, "7"), Echo: s.Echo, NoEchoMark: s.Echo && s.NoEchoMark}
-	h := &harness{s: s, srv: srv, cur: -1, recs: make([]callRec, len(s.Calls)), prevOutcome: "open"}
+	h := &harness{s: s, srv: srv, cur: -1, maxWrites: maxWrites, recs: make([]callRec, len(s.Calls)), prevOutcome: "open"}
 	srv.OnMsg = h.onMsg
 	conn := devsim.NewConn(&dev{Server: srv, h: h}, devsim.Config{Seg: s.Seg, KeepData: true})
 	conn.OnEvent = func(e devsim.Event) {
@@ -313,6 +361,7 @@ func RunSession(s Session) mon.Result {
 
 	var hist []string
 	genAtCallStart := 0
+	straddleTimeoutSinceOK := false
 	// echoTailSharedRead: during the current call some reply began in the middle of a transport read
 	// whose first bytes were echoed client bytes (possible only without echo marks).
 	echoTailSharedRead := func() bool {
@@ -337,16 +386,26 @@ func RunSession(s Session) mon.Result {
 		return false
 	}
 	bad := func(key, f string, a ...interface{}) mon.Result {
-		if (strings.HasPrefix(key, "c08/reply-") || strings.HasPrefix(key, "c08/result-")) &&
-			!strings.Contains(key, "echo-tail-shares-read-with-reply") && echoTailSharedRead() {
+		about := strings.HasPrefix(key, "c08/reply-") || strings.HasPrefix(key, "c08/result-")
+		if about && !strings.Contains(key, "echo-tail-shares-read-with-reply") && echoTailSharedRead() {
 			key += "+echo-tail-shares-read-with-reply"
+		}
+		if about && straddleTimeoutSinceOK && !strings.Contains(key, "after-straddle-timeout") {
+			// a reply that straddled its caller's deadline was abandoned since the last verified success
+			key += "+after-straddle-timeout"
 		}
 		return mon.Result{Verdict: mon.Violated, Key: key, NonTrivial: true,
 			Detail: fmt.Sprintf(f, a...) + "\nhistory: " + strings.Join(lastHist(hist), " | "),
 			Events: tail(conn.Log(), 80)}
 	}
 
-	d, err := netconf.NewDriver("h", options.WithCustomTransport(conn), options.WithTimeoutOps(longTimeout))
+	dopts := []util.Option{options.WithCustomTransport(conn), options.WithTimeoutOps(longTimeout)}
+	if s.ReadDelayMs > 0 {
+		// never 0 (busy polling); larger than the default widens the time a delivered tail sits in
+		// the channel queue before the NETCONF read loop picks it up
+		dopts = append(dopts, options.WithReadDelay(time.Duration(s.ReadDelayMs)*time.Millisecond))
+	}
+	d, err := netconf.NewDriver("h", dopts...)
 	if err != nil {
 		return bad("c08/open-failed", "NewDriver: %v", err)
 	}
@@ -359,6 +418,10 @@ func RunSession(s Session) mon.Result {
 	}
 	defer func() {
 		done := make(chan struct{})
+		if s.ReadDelayMs > 0 {
+			// Channel.Close waits ReadDelay*ReadDelay/1000 for a reader blocked in the transport
+			conn.Abandon()
+		}
 		go func() { defer func() { recover(); close(done) }(); d.Close() }()
 		select {
 		case <-done:
@@ -372,21 +435,44 @@ func RunSession(s Session) mon.Result {
 	obs := map[string]int64{"sessions": 1, "calls": int64(len(s.Calls))}
 	tagset := map[string]bool{
 		"ver=" + s.Version: true, fmt.Sprintf("echo=%v", s.Echo): true, "profile=" + s.Profile: true,
-		fmt.Sprintf("seg=%s/%d", s.Seg.Mode, s.Seg.Size): true, fmt.Sprintf("echo-marked=%v", s.Echo && !s.NoEchoMark): true, fmt.Sprintf("cell=%s/echo=%v", s.Version, s.Echo): true,
+		fmt.Sprintf("seg=%s/%d", s.Seg.Mode, s.Seg.Size): true, fmt.Sprintf("read-delay=%dms", s.ReadDelayMs): true, fmt.Sprintf("echo-marked=%v", s.Echo && !s.NoEchoMark): true, fmt.Sprintf("cell=%s/echo=%v", s.Version, s.Echo): true,
 	}
 	sawTimeout := false
+	sawStraddle := false
 	critA, critB, critC := false, false, false
 	var firstOK string
 	maxID := 0
 
 	for k, call := range s.Calls {
 		to := longTimeout
-		if call.Plan == "late" || call.Plan == "never" {
+		if call.Plan == "late" || call.Plan == "never" || call.Plan == "straddle" {
 			to = shortTimeout
 		}
 		conn.Do(func() { h.cur = k; h.writesInCall = 0; genAtCallStart = conn.Generated() })
 		start := time.Now()
+		var tailDone chan struct{}
+		if call.Plan == "straddle" {
+			// the tail of the reply goes out TailAtMs after the call started (shortly before or after
+			// the caller's deadline); nothing else is written to the stream until it is out
+			tailDone = make(chan struct{})
+			go func() {
+				defer close(tailDone)
+				time.Sleep(time.Until(start.Add(time.Duration(call.TailAtMs) * time.Millisecond)))
+				for i := 0; i < 20000; i++ {
+					ok := false
+					conn.Do(func() { ok = h.sendTail(conn, k) })
+					if ok {
+						return
+					}
+					time.Sleep(500 * time.Microsecond)
+				}
+			}()
+		}
 		res, err := invoke(d, call, to)
+		retAt := time.Now()
+		if tailDone != nil {
+			<-tailDone
+		}
 		var rc callRec
 		var idKey, idDetail, proto string
 		var stray int
@@ -420,6 +506,14 @@ func RunSession(s Session) mon.Result {
 		}
 		if call.Release != "" {
 			desc += "/" + call.Release
+		}
+		if call.Plan == "straddle" {
+			desc += fmt.Sprintf("(head %d%%, tail at %d ms)", call.HeadPct, call.TailAtMs)
+			if call.TailAtMs < 150 {
+				tagset["straddle-tail=before-deadline"] = true
+			} else {
+				tagset["straddle-tail=after-deadline"] = true
+			}
 		}
 		if rc.cutInAttr {
 			desc += " cut-in-attr"
@@ -510,11 +604,24 @@ func RunSession(s Session) mon.Result {
 					"call %d (id %d, nonce %s): result is not the server's reply to it\n got: %q\nwant: %q\n raw: %q", k, rc.reqID, call.Nonce,
 					clip(got), clip(want), clip(string(res.RawResult)))
 			}
+			if call.Plan == "straddle" {
+				// the tail made it in time: the call got its own reply
+				obs["straddle_calls"]++
+				obs["straddle_own_reply_in_time"]++
+				hist = append(hist, desc+" → ok")
+				sawStraddle = true
+				h.setOutcome(conn, k, "straddle-ok")
+				break
+			}
 			if call.Plan != "now" {
 				hist = append(hist, desc+" → RESULT")
 				return bad("c08/harness-plan", "call %d planned %s returned its own reply", k, call.Plan)
 			}
 			obs["success_verified"]++
+			if straddleTimeoutSinceOK {
+				obs["success_right_after_abandoned_straddling_reply"]++
+			}
+			straddleTimeoutSinceOK = false
 			hist = append(hist, desc+" → ok")
 			if firstOK == "" {
 				firstOK = clip(res.Result)
@@ -522,6 +629,10 @@ func RunSession(s Session) mon.Result {
 			if sawTimeout {
 				critB = true
 				obs["success_after_timeout"]++
+			}
+			if sawStraddle {
+				critB = true
+				obs["success_after_straddling_reply"]++
 			}
 			if lateDelivered > 0 {
 				critA = true
@@ -582,6 +693,23 @@ func RunSession(s Session) mon.Result {
 			if rc.reqSeen == 0 {
 				hist = append(hist, desc+" → timeout")
 				return bad("c08/request-missing", "call %d (%s) timed out and the server never saw a request for it", k, call.Kind)
+			}
+			if call.Plan == "straddle" {
+				// legitimate whatever the timing was; what matters is what the following calls get
+				obs["straddle_calls"]++
+				obs["straddle_timed_out"]++
+				var tDel time.Time
+				var ok bool
+				conn.Do(func() { tDel, ok = h.deliveredTime(rc.sentEnd) })
+				if ok && tDel.Before(retAt) {
+					obs["straddle_timed_out_with_tail_already_delivered"]++
+				}
+				sawStraddle = true
+				straddleTimeoutSinceOK = true
+				hist = append(hist, desc+" → timeout")
+				h.setOutcome(conn, k, "straddle-timeout")
+				h.afterCall(conn, k)
+				continue
 			}
 			obs["timeouts_as_planned"]++
 			if lateDelivered > 0 {
